@@ -242,7 +242,8 @@ func VerifC12_OrderedIterators() {
 // "Len returns the number of items remaining in the iterator" — after k calls
 // of Next that returned true, n-k items remain (as OrderedNodes and the
 // map-backed iterators report), and the Slice method returns exactly those.
-// OPEN VIOLATION on the unchanged tree (F-C12-2).
+// Found F-C12-2 (Len was remaining+1, Slice repeated the current item), fixed
+// in /repo commit fae482f.
 func VerifC12_OrderedEdgeLineLen() {
 	n := verifChoose("len", 1, 3)
 	k := verifChoose("steps", 0, 3)
